@@ -1091,4 +1091,141 @@ Proof.
   - split; [apply DF_shutdown; exact H0|cbn; constructor].
 Qed.
 
+
+(* ================= C03 (receiver): an active transaction always has a timer running ================= *)
+Definition RL (s : rstate) : Prop := r_state s = TActive -> c_paused (t_inact (r_timer s)) = false.
+
+Lemma RL_ext (s s' : rstate) : RL s -> r_state s' = r_state s -> t_inact (r_timer s') = t_inact (r_timer s) -> RL s'.
+Proof. unfold RL. intros H E1 E2. rewrite E1, E2. exact H. Qed.
+Lemma RL_running (s s' : rstate) : c_paused (t_inact (r_timer s')) = false -> RL s'.
+Proof. unfold RL. auto. Qed.
+Lemma RL_inactive (s' : rstate) : r_state s' <> TActive -> RL s'.
+Proof. unfold RL. intros H E. contradiction. Qed.
+
+Lemma RL_shutdown now s : RL (shutdown now s).
+Proof. apply RL_inactive. cbn. discriminate. Qed.
+Lemma RL_abandon now s : RL (abandon now s).
+Proof. unfold abandon. apply RL_shutdown. Qed.
+Lemma RL_suspend now s : RL (suspend now s).
+Proof. apply RL_inactive. cbn. discriminate. Qed.
+Lemma RL_cancel_ now s : RL s -> RL (cancel_ now s).
+Proof.
+  intros H. unfold cancel_. destruct (cfg_mode _); [|destruct (closure _)].
+  - eapply (RL_ext s); [exact H | reflexivity | reflexivity].
+  - apply RL_inactive. cbn. discriminate.
+  - apply RL_inactive. cbn. discriminate.
+Qed.
+Lemma RL_handle_fault now c s : RL s -> RL (fst (handle_fault now c s)).
+Proof.
+  intros H. unfold handle_fault.
+  assert (H1 : RL (emit_ind (IFault c (r_recvd (set_r_cond c s))) (set_r_cond c s))) by (eapply (RL_ext s); [exact H | reflexivity ..]).
+  destruct (handler _ c); cbn [fst]; [apply RL_cancel_; exact H1 | apply RL_suspend | exact H1 | apply RL_abandon].
+Qed.
+Ltac rl_calls _ :=
+  lazymatch goal with
+  | |- RL (shutdown _ _) => apply RL_shutdown
+  | |- RL (abandon _ _) => apply RL_abandon
+  | |- RL (suspend _ _) => apply RL_suspend
+  | |- RL (cancel_ _ _) => apply RL_cancel_
+  | |- RL (fst (handle_fault _ _ _)) => apply RL_handle_fault
+  end.
+Ltac rl := solve_st RL RL_ext rl_calls.
+
+Lemma RL_finalize now s : RL s -> RL (finalize_receive now s).
+Proof.
+  intros H. unfold Recv.finalize_receive.
+  set (s0 := set_r_dc _ s). assert (H0 : RL s0) by (unfold s0; rl). clearbody s0. clear H.
+  assert (H1 : RL (fst (if is_file_transfer s0
+                        then let '(s1, go) := fr_verify FS cksum now s0 in
+                             if go then (fr_store FS fs_write_file s1, true) else (s1, false)
+                        else (set_r_fstat FUnreported s0, true)))).
+  { destruct (is_file_transfer s0); cbn [fst]; [|rl].
+    assert (Hv : RL (fst (fr_verify FS cksum now s0))) by (unfold fr_verify; destr_inner; cbn [fst]; rl).
+    destruct (fr_verify FS cksum now s0) as [s1 go]. cbn [fst] in Hv.
+    destruct go; cbn [fst]; [|exact Hv]. unfold fr_store. destr_inner; rl. }
+  destruct (if is_file_transfer s0 then _ else _) as [s2 go2]. cbn [fst] in H1.
+  destruct go2; [|exact H1].
+  assert (H2 : RL (fst (fr_rejection now s2))).
+  { unfold fr_rejection. destruct (r_fstat s2); cbn [fst]; try exact H1. rl. }
+  destruct (fr_rejection now s2) as [s3 go3]. cbn [fst] in H2.
+  destruct go3; [|exact H2]. unfold fr_requests. destruct (run_requests _ _ _ _ _ _ _). rl.
+Qed.
+Lemma RL_check_finished now s : RL s -> RL (check_finished now s).
+Proof.
+  intros H. unfold Recv.check_finished. destr_inner; [|exact H].
+  eapply RL_ext; [apply (RL_finalize now s H)|reflexivity|reflexivity].
+Qed.
+Lemma RL_check_file_size now size s : RL s -> RL (check_file_size now size s).
+Proof. intros H. unfold check_file_size. destr_inner; [rl|exact H]. Qed.
+Ltac rlb_calls _ :=
+  lazymatch goal with
+  | |- RL (check_file_size _ _ _) => apply RL_check_file_size
+  | |- RL (check_finished _ _) => apply RL_check_finished
+  | |- RL (finalize_receive _ _) => apply RL_finalize
+  | |- RL (store_file_data _ _ _) => unfold store_file_data; repeat destr_inner
+  | _ => rl_calls tt
+  end.
+Ltac rlb := solve_st RL RL_ext rlb_calls.
+
+Lemma RL_process_pdu now p s : RL s -> RL (fst (process_pdu now p s)).
+Proof.
+  intros H. unfold Recv.process_pdu.
+  set (s0 := if suspended s then s else upd_inact (c_reset now) s).
+  assert (H0 : RL s0) by (unfold s0; destruct (suspended s); [exact H|apply (RL_running s); reflexivity]).
+  clearbody s0. clear H.
+  destruct (cfg_mode (r_cfg s0)); destruct p; cbn [fst]; try exact H0;
+    unfold pdu_filedata_acked, pdu_eof_acked, pdu_ack_acked, pdu_metadata_acked, pdu_filedata_unacked,
+           pdu_eof_unacked, pdu_ack_unacked, pdu_metadata_unacked, set_metadata, c_timeout_occurred, store_file_data;
+    repeat (first [destr_pair_keep | destr_inner]; cbn [fst snd]); try rlb.
+Qed.
+
+Lemma RL_send_pdu now s : RL s -> RL (send_pdu resp_len req_len now s).
+Proof.
+  intros H. unfold Recv.send_pdu, answer_prompt, send_ack_eof, send_finished, send_naks, set_fin_flag, c_limit_reached.
+  repeat (first [destr_pair_keep | destr_inner]; cbn [fst snd]); try rl.
+Qed.
+
+Lemma RL_handle_timeout now s : RL s -> RL (handle_timeout now s).
+Proof.
+  intros H. unfold handle_timeout.
+  assert (H1 : RL (ht_delayed now s)).
+  { unfold ht_delayed. destruct (expire_delayed now (r_delayed s)). repeat (destr_inner; cbn [fst snd]); rl. }
+  assert (H2 : RL (fst (ht_inactivity now (ht_delayed now s)))).
+  { remember (ht_delayed now s) as s1 eqn:E; clear E. unfold ht_inactivity, c_limit_reached. cbn [fst snd].
+    set (s2 := upd_inact (fun _ => c_update now (t_inact (r_timer s1))) s1).
+    assert (Hs2 : RL s2) by (unfold RL, s2 in *; cbn; rewrite c_update_paused_eq; exact H1).
+    clearbody s2.
+    repeat (first [destr_pair_keep | destr_inner]; cbn [fst snd]); try rl.
+    apply (RL_running s2). reflexivity. }
+  destruct (ht_inactivity now (ht_delayed now s)) as [s2 go]. cbn [fst] in H2.
+  destruct go; [|exact H2].
+  unfold ht_phase, c_limit_reached, c_timeout_occurred, set_fin_flag.
+  repeat (first [destr_pair_keep | destr_inner]; cbn [fst snd]); try rl.
+Qed.
+
+Theorem RL_rstep now o s : RL s -> RL (fst (rstep now o s)).
+Proof.
+  intros H. unfold Recv.rstep.
+  assert (H0 : RL (set_r_out [] s)) by (eapply (RL_ext s); [exact H | reflexivity ..]).
+  destruct o; cbn [fst].
+  - apply RL_process_pdu; exact H0.
+  - destruct (has_pdu_to_send _); [apply RL_send_pdu|]; exact H0.
+  - destruct (until_timeout now _) as [[|?]|]; [apply RL_handle_timeout| |]; exact H0.
+  - unfold cancel. apply RL_cancel_. rl.
+  - apply RL_suspend.
+  - unfold resume. apply (RL_running s). repeat destr_inner; reflexivity.
+  - unfold send_report. rl.
+  - apply RL_shutdown.
+Qed.
+Lemma RL_init now cfg np fs : RL (r_new now cfg np fs).
+Proof. apply (RL_running (r_new now cfg np fs)). reflexivity. Qed.
+
+(* an active receive transaction is never stuck: its inactivity timer is running, so the
+   loop's timeout arm has a finite deadline *)
+Theorem recv_never_stuck now s : RL s -> r_state s = TActive -> until_timeout now s <> None.
+Proof.
+  intros H Hs. unfold until_timeout, suspended. rewrite Hs. cbn [tstate_eqb].
+  specialize (H Hs). destruct (r_delayed s) as [|[[c a] b] t]; [apply c_until_some; exact H|apply omin_some].
+Qed.
+
 End RecvInv.
